@@ -31,6 +31,7 @@ type Engine struct {
 	implCache map[string][]*ssa.Function
 	repoDir string
 	namedTypes []types.Type
+	ctCache map[*ssa.Function]*Contract
 	lemmaProved map[string]bool
 }
 
@@ -62,7 +63,7 @@ func LoadEngine(repoDir string, patterns []string, specDir string) (*Engine, err
 	prog, _ := ssautil.AllPackages(pk, ssa.InstantiateGenerics|ssa.GlobalDebug)
 	prog.Build()
 	e := &Engine{fset: prog.Fset, prog: prog, pkgs: map[string]*packages.Package{}, ssaPkg: map[string]*ssa.Package{}, cs: NewContractSet(),
-		modCache: map[*ssa.Function]map[string]bool{}, typeByKey: map[string]types.Type{}, globals: map[*types.Var]*ssa.Global{}, implCache: map[string][]*ssa.Function{}, repoDir: repoDir}
+		modCache: map[*ssa.Function]map[string]bool{}, typeByKey: map[string]types.Type{}, globals: map[*types.Var]*ssa.Global{}, implCache: map[string][]*ssa.Function{}, repoDir: repoDir, ctCache: map[*ssa.Function]*Contract{}}
 	packages.Visit(pk, nil, func(p *packages.Package) {
 		e.pkgs[p.PkgPath] = p
 	})
@@ -212,6 +213,66 @@ func (e *Engine) fnShort(fn *ssa.Function) string {
 }
 
 func (e *Engine) contractFor(fn *ssa.Function) *Contract {
+	if fn == nil {
+		return nil
+	}
+	if c, ok := e.ctCache[fn]; ok {
+		return c
+	}
+	c := e.contractFor0(fn)
+	c = e.withTypeInv(fn, c)
+	e.ctCache[fn] = c
+	return c
+}
+
+// withTypeInv adds the receiver type's invariant as requires and ensures of a method.
+func (e *Engine) withTypeInv(fn *ssa.Function, c *Contract) *Contract {
+	if len(e.cs.TypeInvs) == 0 || fn.Signature.Recv() == nil || fn.Parent() != nil {
+		return c
+	}
+	if c != nil && c.Opts["noinvariant"] != "" {
+		return c
+	}
+	pkg, _ := e.fnKey(fn)
+	rt := fn.Signature.Recv().Type()
+	name := ""
+	if p, ok := rt.(*types.Pointer); ok {
+		if n, ok := p.Elem().(*types.Named); ok {
+			name = "*" + n.Obj().Name()
+		}
+	} else if n, ok := rt.(*types.Named); ok {
+		name = n.Obj().Name()
+	}
+	var invs []*TypeInv
+	for _, ti := range e.cs.TypeInvs {
+		if ti.Pkg == pkg && ti.Type == name {
+			invs = append(invs, ti)
+		}
+	}
+	if len(invs) == 0 {
+		return c
+	}
+	var n Contract
+	if c != nil {
+		n = *c
+	} else {
+		_, rel := e.fnKey(fn)
+		n = Contract{Func: rel, Pkg: pkg, Loops: map[int]*LoopSpec{}, Opts: map[string]string{}, File: invs[0].C.File, Line: invs[0].C.Line, Synth: true}
+	}
+	n.Requires = append([]*Clause{}, n.Requires...)
+	n.Ensures = append([]*Clause{}, n.Ensures...)
+	for i, ti := range invs {
+		rc := *ti.C
+		rc.Label = fmt.Sprintf("typeinv%d", i)
+		n.Requires = append([]*Clause{&rc}, n.Requires...)
+		ec := *ti.C
+		ec.Label = fmt.Sprintf("typeinv%d", i)
+		n.Ensures = append(n.Ensures, &ec)
+	}
+	return &n
+}
+
+func (e *Engine) contractFor0(fn *ssa.Function) *Contract {
 	if fn == nil {
 		return nil
 	}
